@@ -348,6 +348,8 @@ func recipeCause(r *Recipe) (container, cause string) {
 		}
 	}
 	switch {
+	case recipeHasRangeWithoutOffset(r) && !unsup && !zero && !many && !long:
+		cause = "byte-range-without-offset"
 	case long && !unsup && !zero && !many:
 		cause = "more-than-100-units-of-a-track-per-segment"
 		container = "mpegts"
@@ -494,6 +496,31 @@ func (rn *runner) minimise(r *Recipe, rr runResult) (*Recipe, runResult) {
 		if cur.CloseAt >= 0 || cur.OnTracksErr || cur.CloseAfterDataMS > 0 {
 			c := cloneRecipe(cur)
 			c.CloseAt, c.OnTracksErr, c.CloseAfterDataMS = -1, false, 0
+			if try(c) {
+				progress = true
+				continue
+			}
+		}
+		hasRange := false
+		for _, s := range cur.Streams {
+			if s.MapRange != "" || s.Packed {
+				hasRange = true
+			}
+			for _, g := range s.Segments {
+				if g.Range != "" {
+					hasRange = true
+				}
+			}
+		}
+		if hasRange {
+			c := cloneRecipe(cur)
+			for si := range c.Streams {
+				c.Streams[si].MapRange = ""
+				c.Streams[si].Packed = false
+				for g := range c.Streams[si].Segments {
+					c.Streams[si].Segments[g].Range = ""
+				}
+			}
 			if try(c) {
 				progress = true
 				continue
@@ -925,6 +952,15 @@ func main() {
 		if len(r.Faults) == 0 {
 			dist["fault:none"]++
 		}
+		for _, tg := range r.Tags {
+			if strings.HasPrefix(tg, "byte-range:") && !strings.Contains(tg, "=") && !strings.Contains(tg, ",") && !strings.Contains(tg, "@") && tg != "byte-range:full" {
+				dist["tag:"+tg]++
+			} else if strings.HasPrefix(tg, "byte-range:") {
+				dist["tag:byte-range:boundary"]++
+			} else {
+				dist["tag:"+tg]++
+			}
+		}
 		if d.rr.Child != nil {
 			dist[fmt.Sprintf("requests:%d", min(len(d.rr.Child.Requests), 12))]++
 			if d.rr.Class == "err" {
@@ -1147,6 +1183,21 @@ func recipeHasManyPartTracks(r *Recipe) bool {
 				n += len(p.Tracks)
 			}
 			if n > 10 {
+				return true
+			}
+		}
+	}
+	return false
+}
+
+func recipeHasRangeWithoutOffset(r *Recipe) bool {
+	noOff := func(spec string) bool { return spec != "" && !strings.Contains(spec, "@") }
+	for _, s := range r.Streams {
+		if noOff(s.MapRange) {
+			return true
+		}
+		for _, g := range s.Segments {
+			if noOff(g.Range) {
 				return true
 			}
 		}
